@@ -8,7 +8,7 @@
 (*   Enter   BFS over includes from the root with a visited set            *)
 (*           -> the mapping's keys = Reach(root), each file once           *)
 (*           (an include that matches nothing raises ValueError)           *)
-(*   body    EditModel(p), EditRevert(p), DelKey(p), AddKey               *)
+(*   body    EditModel(p), EditToken(p), EditRevert(p), DelKey(p), AddKey *)
 (*   Exit    normal: removed keys unlinked, new keys created, changed      *)
 (*           models written, unchanged files not touched                   *)
 (*           raising: the disk is exactly as before                        *)
@@ -69,6 +69,9 @@ Body(op, f) == /\ phase = "body" /\ nops < MaxOps /\ nops' = nops + 1
 
 EditModel(f) == f \in keys \ removed /\ f \notin edited /\ edited' = edited \cup {f} /\ Body("edit", f)
                 /\ UNCHANGED <<reverted, removed, added, addedEmpty, addedDeep>>
+\* an edit that changes one token in place to a text of the same extent (no token is added or removed)
+EditToken(f) == f \in keys \ removed /\ f \notin edited /\ edited' = edited \cup {f} /\ Body("edit-token", f)
+                /\ UNCHANGED <<reverted, removed, added, addedEmpty, addedDeep>>
 EditRevert(f) == f \in keys \ (removed \cup edited \cup reverted) /\ reverted' = reverted \cup {f} /\ Body("edit-revert", f)
                  /\ UNCHANGED <<edited, removed, added, addedEmpty, addedDeep>>
 DelKey(f) == mode = "recursive" /\ f \in keys \ removed /\ f # "a" /\ removed' = removed \cup {f} /\ Body("del", f)
@@ -98,7 +101,7 @@ Exit(r) ==
     /\ hist' = Append(hist, [op |-> IF r THEN "raise" ELSE "exit", final |-> Final(~r)])
     /\ UNCHANGED <<inc, spelling, eol, mode, keys, edited, reverted, removed, added, addedEmpty, addedDeep, nops>>
 
-Next == Enter \/ (\E f \in Files : EditModel(f) \/ EditRevert(f) \/ DelKey(f)) \/ AddKey \/ AddEmptyKey \/ AddDeepKey \/ Exit(TRUE) \/ Exit(FALSE)
+Next == Enter \/ (\E f \in Files : EditModel(f) \/ EditToken(f) \/ EditRevert(f) \/ DelKey(f)) \/ AddKey \/ AddEmptyKey \/ AddDeepKey \/ Exit(TRUE) \/ Exit(FALSE)
 
 (* Design invariants *)
 KeysAreReachable == phase = "body" /\ mode = "recursive" => keys = Reach /\ \A f \in keys : ~Dangling(f)
